@@ -95,6 +95,7 @@ type poolConn struct {
 	writes   int
 	inflight int
 	requests int
+	cut      bool // the server ended the transport in the middle of an answer: nobody may use the connection again
 	retired  bool // its holder released it with a closed client / past its lifetime: it must never serve again
 }
 
@@ -158,6 +159,10 @@ func (pc *poolConn) handleWrite(total int, p []byte) {
 		return // hello, addendum
 	}
 	enc := srvEnc{rev: proto.Version}
+	if pc.cut && len(p) > 0 && (p[0] == 1 || p[0] == 4) {
+		s.problem("conn %d served a request after it had been released dead or expired (its transport had ended in the middle of an answer)", pc.id)
+		return
+	}
 	if len(p) == 1 && p[0] == 4 {
 		pc.requests++
 		if pc.retired {
@@ -206,6 +211,7 @@ func (pc *poolConn) handleWrite(total int, p []byte) {
 			pc.feed(pr[:len(pr)-1])
 		}
 		pc.setEOF()
+		pc.cut = true
 		pc.inflight--
 	case strings.HasSuffix(qid, "-slow"):
 		sig := make(chan struct{})
